@@ -25,6 +25,7 @@ leaves the function unchanged still checks, while a changed operand / comparison
 | `bb`                      | `Gen.Optim.bb`             | `Optim.bb`               |
 | `FiniteField::mul`        | `Gen.OptimSem.ffMul`, `ffMulLoop` | `Sem.ffMul`, `Sem.ffMulLoop` |
 | `Polynomial::{zero,one,add,mul}` | `Gen.OptimSem.poly*` | `Sem.polyZero/One/Add/Mul` |
+| `Add/Mul/Sub` of `ExpectedUtility`, `Complex`, `RealSemiring` | `Gen.OptimSem.eu*/cx*/real*` | `Sem.eu*/cx*/real*` |
 -/
 set_option linter.unusedSimpArgs false
 set_option linter.unusedVariables false
@@ -190,6 +191,24 @@ theorem poly_mul_tie : @Gen.OptimSem.polyMul = @Sem.polyMul := by
   | (funext α S n p q
      simp only [Gen.OptimSem.polyMul, Sem.polyMul, Sem.polyMulInner, poly_zero_tie, Sem.polyZeros, Sem.Poly.coef] <;> first | rfl | (split <;> rfl) | grind)
 
+/-! ## `Add` / `Mul` / `Sub` of `ExpectedUtility`, `Complex`, `RealSemiring` (bodies with `let`s and early returns) -/
+
+local macro "tie_sem" g:ident m:ident : tactic =>
+  `(tactic| first
+    | rfl
+    | (funext a b; simp only [$g:ident, $m:ident]
+       first | rfl | grind | (congr 1 <;> grind) | (split <;> simp_all <;> grind)))
+
+theorem eu_add_tie : Gen.OptimSem.euAdd = Sem.euAdd := by tie_sem Gen.OptimSem.euAdd Sem.euAdd
+theorem eu_mul_tie : Gen.OptimSem.euMul = Sem.euMul := by tie_sem Gen.OptimSem.euMul Sem.euMul
+theorem eu_sub_tie : Gen.OptimSem.euSub = Sem.euSub := by tie_sem Gen.OptimSem.euSub Sem.euSub
+theorem cx_add_tie : Gen.OptimSem.cxAdd = Sem.cxAdd := by tie_sem Gen.OptimSem.cxAdd Sem.cxAdd
+theorem cx_mul_tie : Gen.OptimSem.cxMul = Sem.cxMul := by tie_sem Gen.OptimSem.cxMul Sem.cxMul
+theorem cx_sub_tie : Gen.OptimSem.cxSub = Sem.cxSub := by tie_sem Gen.OptimSem.cxSub Sem.cxSub
+theorem real_add_tie : Gen.OptimSem.realAdd = Sem.realAdd := by tie_sem Gen.OptimSem.realAdd Sem.realAdd
+theorem real_mul_tie : Gen.OptimSem.realMul = Sem.realMul := by tie_sem Gen.OptimSem.realMul Sem.realMul
+theorem real_sub_tie : Gen.OptimSem.realSub = Sem.realSub := by tie_sem Gen.OptimSem.realSub Sem.realSub
+
 end TieOptim
 
 #print axioms TieOptim.marginal_map_eval_tie
@@ -207,3 +226,12 @@ end TieOptim
 #print axioms TieOptim.poly_one_tie
 #print axioms TieOptim.poly_add_tie
 #print axioms TieOptim.poly_mul_tie
+#print axioms TieOptim.eu_add_tie
+#print axioms TieOptim.eu_mul_tie
+#print axioms TieOptim.eu_sub_tie
+#print axioms TieOptim.cx_add_tie
+#print axioms TieOptim.cx_mul_tie
+#print axioms TieOptim.cx_sub_tie
+#print axioms TieOptim.real_add_tie
+#print axioms TieOptim.real_mul_tie
+#print axioms TieOptim.real_sub_tie
